@@ -19,6 +19,11 @@ overrides; the linearisation of several bases is Python's own, taken from plain 
 creation order of kinds / reflected values / literals / hierarchies, and unpickles objects shipped from the process
 that built them, comparing with what it builds itself.
 
+**Meetings.**  Objects made independently in several fresh interpreters (`make` jobs) are shipped to one more
+interpreter (`meet` job) that also makes its own, and are compared there.  Recipes are ASTs of props/dslgen.py plus
+`('anonref', source, ident)`: an anonymous `source.reference()`; every `ident` is one creation (the spec: two anonymous
+references are the same object exactly when they are the same creation, wherever their copies travel).
+
 Nothing here imports forml at module import time.
 """
 from __future__ import annotations
@@ -510,6 +515,137 @@ def observe_hier(case: dict) -> dict:
     return out
 
 
+
+# ---- objects made in different interpreters meet in one more ------------------------------------------------------
+def meet_builder():
+    """a `dslgen.Builder` that also makes anonymous references: one `source.reference()` per ident"""
+    from props import dslgen
+
+    class Builder(dslgen.Builder):
+        def __init__(self):
+            super().__init__()
+            self._anon: dict = {}
+
+        def source(self, ast):
+            if ast[0] == 'anonref':
+                if ast[2] not in self._anon:
+                    self._anon[ast[2]] = self.source(ast[1]).reference()
+                return self._anon[ast[2]]
+            return super().source(ast)
+
+        def build(self, ast):
+            if ast[0] == 'anonref':
+                return self.source(ast)
+            return super().build(ast)
+
+    return Builder()
+
+
+def has_anon(ast) -> bool:
+    if isinstance(ast, tuple):
+        if len(ast) == 3 and ast[0] == 'anonref':
+            return True
+        return any(has_anon(a) for a in ast)
+    return False
+
+
+def forget_idents(ast):
+    """the recipe with the creations of anonymous references made indistinguishable"""
+    if isinstance(ast, tuple):
+        if len(ast) == 3 and ast[0] == 'anonref':
+            return ('anonref', forget_idents(ast[1]), '*')
+        return tuple(forget_idents(a) for a in ast)
+    return ast
+
+
+def _make(recipes) -> list:
+    """[{'pickle': b64 | raises, 'cloudpickle': ...}] — the objects of a maker, serialised (one builder: an ident is
+    one object however many recipes mention it)"""
+    builder = meet_builder()
+    out = []
+    for ast in recipes:
+        obj = _guard(lambda ast=ast: builder.build(ast))
+        if isinstance(obj, str):
+            out.append({'error': obj})
+        else:
+            out.append({'pickle': dumps_with('pickle', obj), 'cloudpickle': dumps_with('cloudpickle', obj)})
+    return out
+
+
+def _meet(spec: dict) -> dict:
+    """Unpickle what the makers shipped, make the local objects, compare everything pairwise; self-join every two
+    anonymous references to one source."""
+    from forml.io.dsl._struct import series
+
+    from props import dslgen
+
+    out: dict = {}
+    for codec in ('pickle', 'cloudpickle'):
+        reset_caches()
+        builder = meet_builder()
+        objs, asts, errors = [], [], []
+        for k, item in enumerate(spec['items']):
+            if 'error' in item['blobs']:  # the maker could not build it (the DSL refused the recipe)
+                errors.append([k, 'build:' + item['blobs']['error']])
+                continue
+            blob = item['blobs'].get(codec, 'raises:missing')
+            if blob.startswith('raises:'):
+                errors.append([k, 'dump:' + blob])
+                continue
+            z = _guard(lambda blob=blob: pickle.loads(base64.b64decode(blob)))
+            if isinstance(z, str):
+                errors.append([k, 'load:' + z])
+                continue
+            objs.append((k, z))
+        base = len(spec['items'])
+        for k, ast in enumerate(spec['local']):
+            z = _guard(lambda ast=ast: builder.build(ast))
+            if isinstance(z, str):
+                errors.append([base + k, 'build:' + z])
+            else:
+                objs.append((base + k, z))
+        recipes = [it['ast'] for it in spec['items']] + list(spec['local'])
+        bad = []
+        for a in range(len(objs)):
+            for b in range(a, len(objs)):
+                (ia, xa), (ib, xb) = objs[a], objs[b]
+                same = recipes[ia] == recipes[ib]
+                obs = [_truth(lambda: xa == xb), _truth(lambda: xb == xa), _guard(lambda: hash(xa) == hash(xb)),
+                       _truth(lambda: xb in {xa: 1}), _truth(lambda: xa in {xb})]
+                if (same and obs != ['true', 'true', True, 'true', 'true']) or \
+                        (not same and 'true' in (obs[0], obs[1], obs[3], obs[4])):
+                    bad.append([ia, ib, obs])
+        for ia, xa in objs:
+            if recipes[ia][0] == 'anonref':
+                asts.append([ia, _guard(lambda xa=xa: dslgen.to_ast(xa))])
+        joins = []
+        anon = [(i, x) for i, x in objs if recipes[i][0] == 'anonref']
+        for a in range(len(anon)):
+            for b in range(a + 1, len(anon)):
+                (ia, xa), (ib, xb) = anon[a], anon[b]
+                if recipes[ia][1] != recipes[ib][1] or recipes[ia] == recipes[ib]:
+                    continue
+
+                def join(xa=xa, xb=xb):
+                    name = xa.features[0].name
+                    j = xa.inner_join(xb, xa[name] == xb[name])
+                    return [_truth(lambda: j.left == j.right), len(set(j.features)), len(xa.features) + len(xb.features),
+                            len(series.Element.dissect(xa[name], xb[name])),
+                            _truth(lambda: j.select(xa[name], xb[name]).selection[0] == j.select(xa[name], xb[name]).selection[1])]
+                got = _guard(join)
+                if got != ['false', len(xa.features) + len(xb.features), len(xa.features) + len(xb.features), 2, 'false']:
+                    joins.append([ia, ib, got])
+        keys = {}
+        for i, x in objs:
+            try:
+                keys.setdefault(x, i)
+            except Exception:  # pylint: disable=broad-except
+                pass
+        out[codec] = {'n': len(objs), 'errors': errors, 'bad': bad, 'nbad': len(bad), 'asts': asts, 'joins': joins[:6],
+                      'keys': len(keys), 'distinct': len({recipes[i] for i, _ in objs})}
+    return out
+
+
 # ---- fresh interpreter ---------------------------------------------------------------------------------------
 def _fresh_main() -> None:
     """Executes one job (JSON on stdin) in a new interpreter: `ops` in the given order, then the comparisons."""
@@ -527,7 +663,7 @@ def _fresh_main() -> None:
     out: dict = {'ops': [], 'blobs': []}
     made: list = []  # (kind ast requested, object)
     ids: dict = {}
-    for op in job['ops']:
+    for op in job.get('ops', ()):
         tag = op[0]
         try:
             if tag == 'kind':
@@ -610,6 +746,10 @@ def _fresh_main() -> None:
                         continue
                     rec[f'{tag}/{codec}'] = compare_copy(z, local, ast_of, want_ast, ents)
         out['blobs'].append(rec)
+    if job.get('make'):
+        out['made'] = _make(job['make'])
+    if job.get('meet'):
+        out['meet'] = _meet(job['meet'])
     json.dump(out, sys.stdout)
 
 
